@@ -52,6 +52,10 @@ class _StructRewrite(ast.NodeTransformer):
         if isinstance(f, ast.Name) and f.id == "getattr" and len(node.args) == 2 and not node.keywords and isinstance(node.args[1], ast.Constant) \
                 and isinstance(node.args[1].value, str) and node.args[1].value.isidentifier():
             return ast.copy_location(ast.Attribute(value=node.args[0], attr=node.args[1].value, ctx=ast.Load()), node)
+        # heapq.heappush(..) (import heapq) is heappush(..) (from heapq import heappush)
+        if isinstance(f, ast.Attribute) and isinstance(f.value, ast.Name) and f.value.id == "heapq" and f.attr in ("heappush", "heappop", "heapify", "heapreplace", "heappushpop"):
+            node.func = ast.copy_location(ast.Name(id=f.attr, ctx=ast.Load()), f)
+            return node
         # struct: '!' (network) and '>' (big endian) are the same byte order, size and alignment
         if isinstance(f, ast.Attribute) and isinstance(f.value, ast.Name) and f.value.id == "struct" and f.attr in ("pack", "unpack", "unpack_from", "calcsize", "pack_into", "Struct") \
                 and node.args and isinstance(node.args[0], ast.Constant) and isinstance(node.args[0].value, str) and node.args[0].value.startswith("!"):
@@ -1432,7 +1436,7 @@ def _search_returns_to_for_else(stmts, tail, is_new):
 def construct_signatures(fn):
     """kind -> sorted signatures of the statement-level constructs the respelling pass knows, for the reference"""
     names = {n.id for n in ast.walk(fn) if isinstance(n, ast.Name) and isinstance(n.ctx, ast.Store)}
-    out = {"ifexp": [], "tupleassign": [], "unpack1": [], "chained": [], "nameloop": [], "while": [], "storealias": [], "rowloop": [], "searchreturn": [], "setdefault": [], "unpackcall": [], "guardcontinue": [], "whiletrue": [], "supercall": []}
+    out = {"ifexp": [], "tupleassign": [], "unpack1": [], "chained": [], "nameloop": [], "while": [], "storealias": [], "rowloop": [], "searchreturn": [], "setdefault": [], "unpackcall": [], "guardcontinue": [], "whiletrue": [], "supercall": [], "tableloop": []}
     for n in _own_nodes(fn):
         if isinstance(n, ast.Assign):
             if isinstance(n.value, ast.IfExp):
@@ -1452,6 +1456,8 @@ def construct_signatures(fn):
             out["nameloop"].append(_sig(n, names))
         elif isinstance(n, ast.For) and isinstance(n.iter, (ast.Tuple, ast.List)):
             out["rowloop"].append(_sig(n, names))
+        if isinstance(n, ast.For) and isinstance(n.iter, (ast.Name, ast.Attribute)):
+            out["tableloop"].append(_sig(ast.For(target=n.target, iter=n.iter, body=[ast.Pass()], orelse=[]), names))
         if _is_super_call(n):
             out["supercall"].append(_sig(n, names))
         if isinstance(n, ast.While) and isinstance(n.test, ast.Constant) and n.test.value and n.body and isinstance(n.body[0], ast.If) and not n.body[0].orelse \
